@@ -1,6 +1,6 @@
 SPECIFICATION Spec
 CONSTANTS
- Texts = {"ode", "invalid", "v11", "garbage", "imp_ok", "imp_missing", "imp_10err", "imp_cycle"}
+ Texts = {"ode", "invalid", "v11", "garbage", "imp_ok", "imp_missing", "imp_10err", "imp_cycle", "imp_empty"}
  MaxLen = 3
  Insts = {"fresh", "reused"}
  OpsUsed = {"parse", "validate", "analyse", "generate", "print", "resolve", "flatten", "assignIds", "lookup"}
